@@ -305,6 +305,33 @@ FRAME_RX = re.compile(r"^  (\S+)\(.*\)?$")
 HELPER_FRAMES = (r"internal/util\.\(\*PidLoop\)\.Loop$",)
 
 
+# daemon activities other than the control loops: when a shared helper is reached from one of them, that is part of the
+# identity as well (a PID loop advanced by a metrics scrape is not the PID loop shared by two control loops)
+FOREIGN_ENTRIES = (r"^internal/statistics\.", r"^internal/api\.")
+
+
+def foreign_entry(section):
+    """Outermost fan2go frame of the access stack if it belongs to the metrics collectors or the REST API, else None."""
+    last = None
+    for line in section.splitlines():
+        if line.startswith("Goroutine ") or line.startswith("Previous "):
+            if last is not None:
+                break
+            continue
+        m = re.match(r"^  ([^\s(]+(?:\([^)]*\))?[^\s(]*)\(", line)
+        if not m:
+            if last is not None and not line.strip():
+                break  # end of the access stack (the goroutine creation stack follows)
+            continue
+        fn = m.group(1)
+        if "github.com/markusressel/fan2go/" in fn and "/internal/verif/" not in fn:
+            fn = fn.replace("github.com/markusressel/fan2go/", "")
+            last = re.sub(r"\.func\d+(\.\d+)*$", ".func", fn)
+    if last is not None and any(re.search(rx, last) for rx in FOREIGN_ENTRIES):
+        return last
+    return None
+
+
 def innermost_repo_frame(section):
     """First frame (innermost first) whose function lives in fan2go itself; for a shared helper (util.PidLoop.Loop) the
     calling fan2go frame is appended ("helper<caller"), so that a PID loop raced on through a curve and one raced on
@@ -319,7 +346,8 @@ def innermost_repo_frame(section):
             fn = fn.replace("github.com/markusressel/fan2go/", "")
             fn = re.sub(r"\.func\d+(\.\d+)*$", ".func", fn)
             if found is not None:
-                return found + "<" + fn
+                entry = foreign_entry(section)
+                return found + "<" + fn + ("@" + entry if entry and entry != fn else "")
             if any(re.search(h, fn) for h in HELPER_FRAMES):
                 found = fn
                 continue
